@@ -379,12 +379,15 @@ def gen_programs(chk, salt, n, opts=None):
 def run(chk):
     quick = chk.tier == 'quick'
     tie = opcode_tie()
+    import tr_c01_phival
+    phi_ok, phi_msg = tr_c01_phival.regenerate()     # coq/gen/C01PhiVal.v (git-ignored) before the proofs
     r = chk.prove()
     impl, model = build()
     chk.cov['trusted_base'] += [
         'extraction: ExtrOcamlBasic only, no Extract Constant/Inductive of our own',
         'ocaml/driver_c01.ml, harness/c01_engines.c (parse + run + print), tools/gen_c01_prog.py',
         'coq/Mir/Opcode.v tied to mir.h by tools/tr_opcodes.py (checked every run)',
+        'tools/tr_c01_phival.py (regex over the body of gvn_phi_val in mir-gen.c: which of flag / number the scan compares)',
         'NOT proved: CFG/SSA/GVN structure, copy-prop, DSE, DCE, LICM, RA, combine, x86 encoder (differential run only)']
     n = 800 if quick else 3000
     run_corpus(chk, impl, model, 'c01', ENGINES)
@@ -400,8 +403,10 @@ def run(chk):
     if not tie:
         chk.finding('opcode-tie', dict(what='coq/Mir/Opcode.v does not list the enumerators of mir.h'),
                     'opcode enumeration of mir.h changed: the model no longer matches the source', no_input=True)
+    if not phi_ok:
+        chk.notes.append('phi value translator: ' + phi_msg)
     if not r['ok'] and ndiv == 0:
-        chk.proof_broken(r, searched='%d well-defined programs agreed on all engines' % nwd)
+        chk.proof_broken(r, searched='%d well-defined programs agreed on all engines; %s' % (nwd, phi_msg))
 
 
 def replay(chk, path):
